@@ -32,6 +32,17 @@ def run_plan(case):
     if case.get("vol_trailing"):
         # bytes after the last record (a file padded to a block boundary by the medium it came from): not part of any record
         b.files[b.names["vol"]] = b.files[b.names["vol"]] + {"nul": b"\0", "blank": b" ", "junk": b"REMARKS:"}[case["vol_trailing"][0]] * case["vol_trailing"][1]
+    if case.get("clutter"):
+        # what else lies in the directory: an EARLIER DELIVERY of the same scene (same file names, other contents) kept in a subfolder, a saved
+        # original of one file, unrelated extras -- the product is the files the summary lists, in the directory itself
+        other = product.build_product(level=case.get("level", "1.5"), images=case.get("images", (("HH", None, 3, 2),)), seed=case["seed"] + 977,
+                                      nfp=case.get("nfp"), ctx=dict(case.get("ctx") or {}, creation_datetime="1999123123595999"))
+        for folder in case["clutter"]:
+            for name, data in other.files.items():
+                if name != "summary.txt":
+                    b.files[f"{folder}/{name}"] = data
+        b.files["browse.jpg"] = b"\xff\xd8\xff\xe0" + b"\0" * 64
+        b.files["notes/readme.txt"] = b"see ticket 4711\n"
     res = {"case": case, "bad": [], "n": 0, "open": "ok"}
     fs = case.get("fs", "local")
     url = imgrun.put_on_fs(b, fs, f"lf_{case['seed']}_{case.get('k')}")
